@@ -353,6 +353,7 @@ theorem goalS_isGoal {fl : Bool} {t : Term} (h : goalS fl t = true) : SLD.isGoal
       | call x hx => subst hx; rfl
       | ite c t e hx => subst hx; rfl
       | ifthen c t hx => subst hx; rfl
+      | once x hx => subst hx; rfl
 
 theorem okBody_S {fl : Bool} {b : Term} (h : bodyS fl b = true) : SLD.okBody false b = true := by
   simp only [SLD.okBody, Bool.false_eq_true, if_false, disjuncts_horn b h, List.all_cons, List.all_nil, Bool.and_true]
